@@ -33,6 +33,19 @@ Inductive fop :=
    selects case k" *)
 Inductive cond := CBool (id : N) | CCase (id : N) (k : nat).
 
+(* what a hand-written component that is passed a block of children (`@component() { children }`, received through
+   templ.GetChildren(ctx)) does with that block *)
+Inductive hkind :=
+| HPass                                        (* children.Render(ctx, w): into the writer the component itself was given *)
+| HFwd (limit : option nat) (x : N) (own : bool)
+      (* children.Render(ctx, fw): into a writer of the component's own whose Write hands the bytes on to w.Write (a tee,
+         a byte counter, a hasher, a cache ...).  With limit = Some k that writer takes k bytes in all: the call that
+         would go beyond takes what still fits and returns the writer's own error EComp x, as does every later call.
+         own = true: when the children have returned, the component first looks at its own writer and returns that
+         writer's error if it failed; own = false: it returns what the children returned *)
+| HCapture.                                    (* children.Render(ctx, &buf) with a bytes.Buffer of its own; if that
+                                                  returned nil, w.Write(buf.Bytes()) *)
+
 (* programs of the shape the generator emits; a [list node] is a statement sequence in which every statement is
    followed by `if templ_7745c5c3_Err != nil { return ... }` *)
 Inductive node :=
@@ -45,8 +58,12 @@ Inductive node :=
 | Func (ops : list fop)                         (* a hand-written templ.ComponentFunc *)
 | Nop                                           (* templ.NopComponent *)
 | If (c : cond) (thn els : list node)           (* if c { thn } else { els }; `else if` is an If as the only statement of els *)
-| For (id : N) (body : list node).              (* for _, x := range expr { body }: the oracle gives the number of iterations,
+| For (id : N) (body : list node)               (* for _, x := range expr { body }: the oracle gives the number of iterations,
                                                    every oracle is asked with the enclosing iteration indices *)
+| Host (k : hkind) (times : nat) (children : list node).
+                                                (* @c() { children } where c is a hand-written component that renders the block it
+                                                   is passed `times` times (0: not at all), each time as [k] says; the block is a
+                                                   closure of the generated-code shape (Templ false children) *)
 
 (* derived statements *)
 (* switch tag { case 0: c0; case 1: c1; ... default: d }: Go evaluates the tag once and takes the first matching case *)
@@ -128,8 +145,23 @@ Fixpoint denote (n : node) (path : list nat) : dres :=
   | If c thn els => if holds path c then seq_d node (fun x => denote x path) thn
                     else seq_d node (fun x => denote x path) els
   | For id body => seq_d nat (fun k => seq_d node (fun x => denote x (k :: path)) body) (seq 0 (cnt path id))
+  | Host _ times ch =>                          (* whatever writer the component puts in between: the children, that many times *)
+      seq_d nat (fun _ => seq_d node (fun x => denote x path) ch) (seq 0 times)
   end.
 End Denote.
+
+(* the error values of the writers that hand-written components of the program put between a block of children and
+   the writer they were given: when such a writer fails, Render may return its error *)
+Fixpoint host_errs (n : node) : list err :=
+  match n with
+  | Templ _ body => flat_map host_errs body
+  | Join cs => flat_map host_errs cs
+  | Flush ch => flat_map host_errs ch
+  | If _ thn els => flat_map host_errs thn ++ flat_map host_errs els
+  | For _ body => flat_map host_errs body
+  | Host k _ ch => match k with HFwd (Some _) x _ => [EComp x] | _ => [] end ++ flat_map host_errs ch
+  | _ => []
+  end.
 
 (* ---------- the record of what the destination writer answered ---------- *)
 Inductive logent :=
@@ -155,14 +187,16 @@ Fixpoint first_refusal (l : list logent) : option err :=
 
 (* ---------- C10 for one render ---------- *)
 (* d, de   : the document and the program's own first failure (from [denote])
+   hs      : the errors of the limited writers of the program's hand-written components (from [host_errs]; [] when
+             there is none, and the predicate then is exactly: the result is the first refusal or the program's failure)
    res     : what Render returned
    got     : the bytes the destination accepted during this render
    l       : the record of the destination's answers during this render *)
-Definition spec_ok (d : bytes) (de : option err) (res : option err) (got : bytes) (l : list logent) : Prop :=
+Definition spec_ok (d : bytes) (de : option err) (hs : list err) (res : option err) (got : bytes) (l : list logent) : Prop :=
   prefix got d /\
   (res = None -> got = d /\ de = None) /\
-  (forall x, first_refusal l = Some x -> res = Some x \/ (res = de /\ de <> None)) /\
-  (first_refusal l = None -> res = de).
+  (forall x, first_refusal l = Some x -> res = Some x \/ (res = de /\ de <> None) \/ (exists y, res = Some y /\ In y hs)) /\
+  (first_refusal l = None -> res = de \/ (exists y, res = Some y /\ In y hs)).
 
 (* canonical encoding of error values (what the harness computes from the real error with errors.Is / type
    assertion on templ.Error) *)
@@ -181,10 +215,11 @@ Definition enc_res (r : option err) : bytes := match r with None => bs "nil" | S
 Definition is_some {A} (o : option A) : bool := match o with Some _ => true | None => false end.
 
 (* the same predicate over encoded results: res is the implementation's canonicalised error *)
-Definition spec_okb (d : bytes) (de : option err) (res : bytes) (got : bytes) (l : list logent) : bool :=
+Definition res_in (res : bytes) (hs : list err) : bool := existsb (fun y => bytes_eqb res (enc_err y)) hs.
+Definition spec_okb (d : bytes) (de : option err) (hs : list err) (res : bytes) (got : bytes) (l : list logent) : bool :=
   prefixb got d &&
   (if bytes_eqb res (bs "nil") then bytes_eqb got d && negb (is_some de) else true) &&
   match first_refusal l with
-  | Some x => bytes_eqb res (enc_err x) || (bytes_eqb res (enc_res de) && is_some de)
-  | None => bytes_eqb res (enc_res de)
+  | Some x => bytes_eqb res (enc_err x) || (bytes_eqb res (enc_res de) && is_some de) || res_in res hs
+  | None => bytes_eqb res (enc_res de) || res_in res hs
   end.
